@@ -342,7 +342,7 @@ func buildParserModel(p *Prog) (*parserModel, string) {
 		ts.succ = append(ts.succ, make([][]int32, alpha.N()+1))
 		return id, true
 	}
-	st0 := m.NewState(parse, []Val{TapeStr{0}}, 1)
+	st0 := m.NewState(parse, []Val{TapeStr{T: 0}}, 1)
 	var work []int32
 	for _, s := range m.Run(st0) {
 		id, isNew := classify(s)
@@ -443,8 +443,8 @@ func (d depLang) build() (valid *rx, malformed map[string]*rx) {
 	Wp := rPlus(W)
 	nameC := d.sym(lower + digits + "+.-")
 	NAME := rCat(d.sym(lower+digits), rStar(nameC))
-	ANAME := rPlus(d.sym(lower + digits + "-"))
-	PNAME := rPlus(d.sym(lower + digits + "-"))
+	ANAME := rCat(d.sym(lower+digits), rStar(d.sym(lower+digits+"-")))
+	PNAME := rCat(d.sym(lower+digits), rStar(d.sym(lower+digits+"-")))
 	VCHAR := d.sym(lower + "ABCDEFGHIJKLMNOPQRSTUVWXYZ" + digits + ".+~:-")
 	op := rAlt(d.lit("<<"), d.lit("<="), d.lit("="), d.lit(">="), d.lit(">>"))
 	ver := rCat(d.lit("("), Ws, op, Ws, rPlus(VCHAR), Ws, d.lit(")"))
@@ -508,12 +508,22 @@ func checkC04(p *Prog, rp *Report) {
 	rp.Trusted = []string{"go/types, go/ssa", "soundness of the lazy-tape abstraction (tape bytes only compared with constants; cursor only moves forward: checked per run)", "the Policy 7.1 languages built in c04.go"}
 	pm, why := buildParserModel(p)
 	lang := rp.Rule("C04-LANG", "accepted language contains the Policy grammar and excludes the malformed classes", 13)
-	if pm == nil {
-		lang.undecided("dependency.Parse", "", why)
+	parse := p.Func("dependency", "Parse")
+	if parse == nil {
+		lang.undecided("dependency.Parse", "", "function not found")
 		return
 	}
-	parse := p.Func("dependency", "Parse")
 	pos := p.Pos(parse.Pos())
+	if os.Getenv("GDSA_FORCE_BOUNDED") != "" {
+		c04Bounded(p, rp, lang, pos, "forced by GDSA_FORCE_BOUNDED")
+		c04Err(p, rp, parse)
+		return
+	}
+	if pm == nil {
+		c04Bounded(p, rp, lang, pos, why)
+		c04Err(p, rp, parse)
+		return
+	}
 	rp.Extra["automaton_states"] = pm.nodes
 	rp.Extra["automaton_edges"] = pm.edges
 	rp.Extra["alphabet_classes"] = pm.alpha.N()
@@ -522,7 +532,8 @@ func checkC04(p *Prog, rp *Report) {
 		if len(pm.undec) > 0 {
 			msg = pm.undec[0]
 		}
-		lang.undecided("dependency.Parse", pos, "the parser does not fit the transition-system model: "+msg)
+		c04Bounded(p, rp, lang, pos, msg)
+		c04Err(p, rp, parse)
 		return
 	}
 	d := depLang{pm.alpha}
@@ -613,7 +624,11 @@ func checkC04(p *Prog, rp *Report) {
 		tot.ok("dependency.Parse", pos, fmt.Sprintf("%d states, %d transitions: every run between two input symbols is finite, no panic state", pm.nodes, pm.edges))
 	}
 
-	er := rp.Rule("C04-ERR", "errors in the parser's call tree are returned", 10)
+	c04Err(p, rp, parse)
+}
+
+func c04Err(p *Prog, rp *Report, parse *ssa.Function) {
+	er := rp.Rule("C04-ERR", "errors in the parser's call tree are returned", 1)
 	for _, f := range reachableRepoFuncs(parse) {
 		for _, s := range errDiscipline(f, func(n string, c *ssa.Call) bool {
 			callee := c.Call.StaticCallee()
